@@ -14,7 +14,7 @@ import warnings
 from .common import VERIF
 from .runner import PropertyCheck
 
-OLD = b'precious old content\n'
+OLD = b'precious old content, longer than anything a test case writes (an overwrite must replace ALL of it)\n' * 2000
 BYSTANDER = b'bystander\n'
 FORMATS = ('ds9', 'crtf', 'fits')
 STATES = ('absent', 'file', 'empty', 'symlink', 'symlink_empty', 'dangling', 'chain', 'loop')
